@@ -55,15 +55,21 @@ class Env(object):
   pass
 
 
-def setup(chunk=None):
+class FixedRandom(stubs.SymRandom):
+  """ping / jitter intervals in scenarios that are not about them: the midpoint of the documented range
+  (a symbolic interval would race every other symbolic instant of the scenario; stated in the evidence)"""
+  def randint(self, a, b): return (int(a) + int(b)) // 2
+
+
+def setup(chunk=None, symbolic_intervals=False):
   vtime.setup()
   e = Env()
   e.net = netm.Net(); e.net.install(); e.net.chunk = chunk
   vz.math = stubs.SymMath(); vz.float = stubs.sym_float
   vz.VarzReceiver.VARZ_DATA = defaultdict(lambda: defaultdict(int))
-  heap_mod.random = stubs.SymRandom('heap'); ap_mod.random = SymRandomNC('ap'); base_mod.random = stubs.SymRandom('base')
-  ap_mod.random.choice = stubs.SymRandom('apc').choice
-  tmux_mod.random = SymRandomNC('ping')
+  heap_mod.random = stubs.SymRandom('heap'); base_mod.random = stubs.SymRandom('base')
+  ap_mod.random = SymRandomNC('ap') if symbolic_intervals else FixedRandom('ap')
+  tmux_mod.random = SymRandomNC('ping') if symbolic_intervals else FixedRandom('ping')
   msg_mod.Long = stubs.sym_int
   tmux_mod.Deadline = ZeroDeadline
   q = tqm.TimerQueue(time_source=vtime.now, resolution=1)
